@@ -547,7 +547,10 @@ def r5(repo, res):
 
     try:
         out = Obj(name="out.simple")
-        args = dict(output_file=out, solver="S1", reference="ref.fa", multiple_warn_level=2, report=False, genome="hg38", debug="dbg")
+        from checks._genotype import GR as _GRx
+
+        region = _GRx("22", 500, 530)   # the user's copy-number-neutral region
+        args = dict(output_file=out, solver="S1", reference="ref.fa", multiple_warn_level=2, report=False, genome="hg38", debug="dbg", cn_region=region)
         singles = {}
         for gname in ("g1", "g2", "g3"):
             k, v, tr, pr = gm.run(Scenario(args=dict(args, gene_db=gname), params=dict(gap=0.1, max_minor_solutions=2), **desc))
@@ -571,8 +574,13 @@ def r5(repo, res):
            found=f"{len(genes)} gene objects; structure stage saw {[getattr(t[1], 'name', None) for t in cn]}", key="own-gene")
     ok_args = all(t[4] == {"solver": "S1", "debug": "dbg"} for t in cn) and all(t[5]["profile"].get("gap") == 0.1 and t[5]["profile"].get("max_minor_solutions") == 2 for t in cn) \
         and all(sm[4] == "ref.fa" and sm[5] == "dbg" for sm in events(trace, "Sample"))
-    res.ob("C14.R5", g, g, ok_args, expected="solver, reference, debug prefix and the model parameters reach every gene's run unchanged",
-           found="ok" if ok_args else str([(t[4], t[5]["profile"].get("gap")) for t in cn]), key="same-arguments")
+    loads = [(t[1], t[2], t[3]) for t in events(trace, "Profile.load")]
+    loads1 = [(t[1], t[2], t[3]) for t in events(singles["g1"][2], "Profile.load")]
+    ok_args = ok_args and len(loads) == 3 and len(loads1) == 1 and all(l_ == loads1[0] for l_ in loads) and loads1[0][1] is region
+    res.ob("C14.R5", g, g, ok_args, expected="solver, reference, debug prefix, the user's neutral region and the model parameters reach every gene's run unchanged "
+                                            "(each gene's profile is loaded exactly as in its single-gene run)",
+           found="ok" if ok_args else str([(t[4], t[5]["profile"].get("gap")) for t in cn]) + f"; profile loads {[(l_[0], l_[1]) for l_ in loads]} vs single {[(l_[0], l_[1]) for l_ in loads1]}",
+           key="same-arguments")
     text = "".join(t for t, fl in printed if fl is out)
     want_text = singles["g1"][3] + "SAMPLE\tG2\t\n" + singles["g3"][3]
     res.ob("C14.R5", g, g, text == want_text, expected="the output holds each gene's own lines in request order; the failing gene leaves one closed empty line",
@@ -754,6 +762,8 @@ def run(repo, res):
 
 
 MUTANTS = [
+    dict(name="R5 multi-gene dispatch loses the user's neutral region (seeded C14_d1 shape)", module="genotype", expect="C14.R5",
+         old="                        output_file,\n                        cn_region,\n                        cn_solution,", new="                        output_file,\n                        None,\n                        cn_solution,"),
     dict(name="R1 original defect: accessor rewrites the catalogue", module="solutions", expect="C14.R1",
          old="        m = set(self.gene.alleles[self.major].func_muts)", new="        m = self.gene.alleles[self.major].func_muts"),
     dict(name="R1 major filter works on the catalogue itself", module="major", expect="C14.R1",
